@@ -92,6 +92,7 @@ type stats struct {
 	mu      sync.Mutex
 	perSite map[string]map[string]int // site -> outcome/form -> n
 	reint   []caseDesc
+	reintBy map[string]caseDesc // (site, tag, outer form) -> smallest example
 }
 
 func (s *stats) add(site, k string) {
@@ -105,7 +106,7 @@ func (s *stats) add(site, k string) {
 	s.mu.Unlock()
 }
 
-var st = &stats{perSite: map[string]map[string]int{}}
+var st = &stats{perSite: map[string]map[string]int{}, reintBy: map[string]caseDesc{}}
 
 func widthName(f int, v uint64) string {
 	if f == space.FormMin {
@@ -180,11 +181,14 @@ func evalCase(c *vlib.Check, s *site, in *inst, outer, first int, inner string, 
 		cd.Got = got
 		c.Eval(class, "REINTERPRETED")
 		st.add(s.name, "reinterpreted@outer="+of)
-		st.mu.Lock()
-		if len(st.reint) < 400 {
-			st.reint = append(st.reint, cd)
+		if inner == "" {
+			st.mu.Lock()
+			k := fmt.Sprintf("%s|%d|%s", s.name, tag, of)
+			if old, ok := st.reintBy[k]; !ok || cd.Hex < old.Hex {
+				st.reintBy[k] = cd
+			}
+			st.mu.Unlock()
 		}
-		st.mu.Unlock()
 		want := in.want
 		if want == "" {
 			want = "<no variant: must be rejected>"
@@ -375,12 +379,22 @@ func main() {
 	vlib.Parallel(len(jobs), func(i int) { runInst(c, jobs[i].s, jobs[i].in) })
 	flush(c)
 
-	// written-out samples: first three reinterpretations, plus some plain cases
-	for i, r := range st.reint {
-		if i >= 4 {
-			break
+	// deterministic list of the distinct silent reinterpretations
+	{
+		var ks []string
+		for k := range st.reintBy {
+			ks = append(ks, k)
 		}
-		c.Sample(r)
+		sort.Strings(ks)
+		for _, k := range ks {
+			st.reint = append(st.reint, st.reintBy[k])
+		}
+	}
+	// written-out samples: some reinterpretations, plus some plain cases
+	for i, r := range st.reint {
+		if i%(len(st.reint)/4+1) == 0 {
+			c.Sample(r)
+		}
 	}
 	for _, s := range sites[:min(4, len(sites))] {
 		in := s.insts[0]
@@ -399,7 +413,7 @@ func main() {
 			covered[a] = s.name
 		}
 	}
-	var cov, uncov, stale []string
+	cov, uncov, stale := []string{}, []string{}, []string{}
 	for _, f := range found {
 		if sn, ok := covered[f]; ok {
 			cov = append(cov, f+" <- "+sn)
@@ -438,24 +452,16 @@ func main() {
 			Tag                               uint64
 		}
 		var l []short
-		seen := map[string]bool{}
+		perSiteN := map[string]int{}
 		for _, r := range st.reint {
-			k := fmt.Sprintf("%s|%d|%s", r.Site, r.Tag, r.Outer)
-			if seen[k] || r.Inner != "" {
-				continue
+			perSiteN[r.Site]++
+			if strings.HasPrefix(r.Site, "ledger.") && perSiteN[r.Site] > 3 {
+				continue // failure reasons: three examples per decoder/era, counts below
 			}
-			seen[k] = true
 			l = append(l, short{r.Site, r.Outer, r.First, r.Got, r.Want, vlib.Hex(mustHex(r.Hex)), r.Tag})
 		}
-		sort.Slice(l, func(i, j int) bool {
-			if l[i].Site != l[j].Site {
-				return l[i].Site < l[j].Site
-			}
-			if l[i].Tag != l[j].Tag {
-				return l[i].Tag < l[j].Tag
-			}
-			return l[i].Outer < l[j].Outer
-		})
+		c.Set("silent_reinterpretations_distinct", len(st.reint))
+		c.Set("silent_reinterpretations_per_decoder", perSiteN)
 		c.Set("silent_reinterpretations", l)
 	}
 	c.Set("sites", len(sites))
